@@ -2,6 +2,7 @@ import YModel.JW
 import YModel.OpTables
 import YProofs.Lemmas.JWBonds
 import YProofs.Lemmas.JWReorder
+import YProofs.Lemmas.JWKronInstance
 /-!
 # C07 — MPO construction and measurements realise Jordan–Wigner operators
 
@@ -364,6 +365,9 @@ def kronInt2 : KronSem Int Int 2 where
     rcases this with rfl | rfl
     · simp [Function.update, Int.mul_assoc]
     · simp [Function.update, Int.mul_left_comm]
+
+/-- … and by the genuine (non-commutative) Kronecker product of Mathlib on two sites of `2 × 2` integer matrices -/
+example : KronSem (Matrix (Fin 2) (Fin 2) ℤ) (Matrix (Fin 2 × Fin 2) (Fin 2 × Fin 2) ℤ) 2 := kronMat2
 
 /-- the executable model on a concrete non-trivial instance: spinless fermions (`U1`), two sites:
 `c_0 c†_1 = − c†_1 c_0` and generate_mpo's rule reproduces the user-order product for an out-of-order term -/
